@@ -79,6 +79,9 @@ func main() {
 				mark = "FAIL"
 				bad++
 			}
+			if !o.ok() && o.Result == "sat" && os.Getenv("GOVC_HINTS") != "" {
+				fmt.Println("  hints:", modelHints(o, *work))
+			}
 			if *verbose || !o.ok() {
 				fmt.Printf("%s %-60s %-8s %-7s %5dms  %s  [%s] %s\n", mark, o.Name, o.Result, o.Solver, o.Ms, strings.Join(o.Props, ","), o.Pos, trunc(o.Clause, 100))
 			}
